@@ -98,18 +98,22 @@ Proof.
 Qed.
 
 Definition noeol_start (rest : list byte) : Prop :=
-  match rest with [] => True | b :: _ => is_eol b = false end.
+  match rest with [] => True | b :: _ => is_eol b = false /\ beqb b NUL = false end.
 
 Lemma scan_nl rest : noeol_start rest -> scan (NL :: rest) = (TEol, rest).
 Proof.
   intros H. unfold scan. simpl. destruct rest as [|b t]; simpl; [reflexivity|].
-  simpl in H. rewrite H. reflexivity.
+  simpl in H. destruct H as [H1 H2]. rewrite H1. simpl. rewrite H2. reflexivity.
 Qed.
+
+Lemma drop_nul_len l : length (drop_nul l) <= length l.
+Proof. destruct l as [|b t]; simpl; [lia|]. destruct (beqb b NUL); simpl; lia. Qed.
 
 Lemma scan_shrinks l t r : scan l = (t, r) -> t <> TEof -> length r < length l.
 Proof.
   intros E Ht. destruct l as [|b t0]; [simpl in E; inversion E; subst; congruence|].
-  unfold scan in E. destruct (is_eol b). { inversion E; subst. pose proof (span_len is_eol t0). simpl. lia. }
+  unfold scan in E. destruct (is_eol b).
+  { inversion E; subst. pose proof (span_len is_eol t0). pose proof (drop_nul_len (snd (span is_eol t0))). simpl. lia. }
   destruct (beqb b NUL). { inversion E; subst; congruence. }
   destruct (beqb b GT). { inversion E; subst. simpl. lia. }
   pose proof (ident_run_len t0). destruct (ident_run t0). inversion E; subst. simpl in *. lia.
@@ -139,7 +143,7 @@ Definition toks_row (w : nat) (r : row) : list tok :=
 Definition good_line (c : list byte) : Prop := c <> [] /\ forallb resid c = true.
 
 Lemma noeol_start_row w r rest : noeol_start (write_row w r ++ rest).
-Proof. simpl. reflexivity. Qed.
+Proof. simpl. split; reflexivity. Qed.
 
 Lemma lex_lines cs rest :
   Forall good_line cs -> noeol_start rest ->
@@ -156,7 +160,7 @@ Proof.
   assert (Htail : noeol_start tail).
   { unfold tail. destruct cs as [|c2 cs2]; simpl; [exact Hr|].
     inversion Hcs as [|? ? [Hne2 Hres2] _]; subst. destruct c2 as [|b2 s2]; [congruence|]. simpl.
-    simpl in Hres2. apply andb_true_iff in Hres2 as [Hb2 _]. apply plain_not_eol. now apply resid_plain. }
+    simpl in Hres2. apply andb_true_iff in Hres2 as [Hb2 _]. split; [apply plain_not_eol | apply plain_not_nul]; now apply resid_plain. }
   replace ((((b :: s) ++ [NL]) ++ flat_map (fun c => c ++ [NL]) cs) ++ rest) with (b :: s ++ NL :: tail)
     by (unfold tail; simpl; rewrite <- !app_assoc; reflexivity).
   rewrite (lex_all_step _ _ _ (scan_ident b s (NL :: tail) (resid_plain _ Hb) Hg Hpl
@@ -182,7 +186,7 @@ Proof.
   assert (Htl : noeol_start (body ++ rest)).
   { unfold body. destruct (chunks_aux w w (c :: s') []) as [|c2 cs2]; simpl; [exact Hr|].
     inversion Hgood as [|? ? [Hne2 Hres2] _]; subst. destruct c2 as [|b2 s2]; [congruence|]. simpl.
-    simpl in Hres2. apply andb_true_iff in Hres2 as [Hb2 _]. apply plain_not_eol. now apply resid_plain. }
+    simpl in Hres2. apply andb_true_iff in Hres2 as [Hb2 _]. split; [apply plain_not_eol | apply plain_not_nul]; now apply resid_plain. }
   replace ((GT :: (b :: n') ++ NL :: wrap w (c :: s') ++ [NL]) ++ rest)
      with (GT :: (b :: n' ++ NL :: (body ++ rest))).
   2:{ unfold wrap. subst body. rewrite <- Hwc. cbn [app]. rewrite <- !app_assoc. cbn [app]. rewrite <- !app_assoc. cbn [app]. reflexivity. }
@@ -206,7 +210,7 @@ Proof.
     apply andb_true_iff in Hrep as [Hr Ha]. apply andb_true_iff in Hr as [Hn Hs].
     rewrite lex_row; auto.
     + rewrite (IH Ha). cbn [flat_map]. rewrite <- app_assoc. reflexivity.
-    + destruct a as [|r2 a2]; [exact I|]. rewrite write_cons. reflexivity.
+    + destruct a as [|r2 a2]; [exact I|]. rewrite write_cons. apply noeol_start_row.
 Qed.
 
 (* ---------- parser loop on the token stream of a written file ---------- *)
